@@ -99,6 +99,8 @@ def gen_case(seed, tier):
         setup.append({'op': 'damage'})      # an unknown file in every database directory: a complete report is never empty
     hold = rng.choice(('short', 'long', 'long'))
     dur = timeout * rng.choice((0.1, 0.5)) if hold == 'short' else timeout * rng.choice((1.5, 3.0, 7.5))
+    if hold == 'long' and timeout <= 0.05 and rng.random() < 0.15:
+        dur = timeout * rng.choice((1100, 2600))      # a caller that retries goes through more than a thousand timeouts
     cfg = {'target': target, 'settings': settings, 'timeout': timeout, 'shards': rng.choice((1, 2, 3)), 'maxlen': None,
            'topology': 'procs', 'sched': {'kind': 'uniform'}, 'clock': {'mode': 'frozen'}, 'yield_clock': False,
            'hold': hold, 'dur': dur, 'step_cap': 80000}
